@@ -688,14 +688,14 @@ impl Check for C02 {
                             }
                             out.mismatch(
                                 ctx,
-                                &format!("c02_schema_valid_validator_rejects{}", feature_suffix(&t.env, d, doc)),
+                                &format!("c02_schema_valid_validator_rejects{}", feature_suffix_used(&t.env, d, t.used.contains_key("exclude"))),
                                 format!("{} [{}]: document {} is valid against the emitted schema but validate() rejects it", name, mode, doc),
                                 detail(json!({"doc": doc, "source": src, "reference_open": format!("{:?}", mo)})),
                             );
                         } else if got == Some(true) && mo == Tri::Yes && ms == Tri::No {
                             out.mismatch(
                                 ctx,
-                                &format!("c02_schema_allows_undeclared_key{}", feature_suffix(&t.env, d, doc)),
+                                &format!("c02_schema_allows_undeclared_key{}", feature_suffix_used(&t.env, d, t.used.contains_key("exclude"))),
                                 format!("{} [{}]: document {} is valid against the emitted schema but carries a key the type does not declare", name, mode, doc),
                                 detail(json!({"doc": doc, "source": src})),
                             );
@@ -709,7 +709,7 @@ impl Check for C02 {
                         // each, so keys declared by one member are rejected by the others.  Decided by repairing
                         // exactly that in the emitted schema and judging the document again.
                         let repaired = repair_unmerged_allof(root, root);
-                        let mut sig = format!("c02_member_schema_invalid{}", feature_suffix(&t.env, d, doc));
+                        let mut sig = format!("c02_member_schema_invalid{}", feature_suffix_used(&t.env, d, t.used.contains_key("exclude")));
                         if &repaired != root {
                             if let Ok(j2) = ctx.judge(json!({"root": repaired, "docs": [doc], "patterns": table})) {
                                 if j2["valid"][0] == json!(true) {
@@ -805,6 +805,14 @@ fn strip_closed_b(v: &Value, root: &Value, ref_fuel: usize, budget: &std::cell::
 
 /// root-cause key: which type features are in play (so that a listed finding does not mask a different defect)
 pub fn feature_suffix(env: &Env, d: &D, _doc: &Value) -> String {
+    feature_suffix_used(env, d, false)
+}
+/// `through_exclude`: the program spells part of the type with Exclude, i.e. the type was re-materialised from the
+/// semantic engine and inherits its listed findings (C05/C07: `{}` absorbing union members, records over never, ...)
+pub fn feature_suffix_used(env: &Env, d: &D, through_exclude: bool) -> String {
+    if through_exclude {
+        return ":program_uses_exclude".to_string();
+    }
     let mut f = vec![];
     if reaches(env, d, &mut |n| matches!(n, D::Inter(_))) {
         f.push("inter");
